@@ -504,6 +504,28 @@ theorem cntLt_le_cntLe {w : Nat} {P : List Nat} (hP : P.Pairwise (· ≤ ·)) (h
     have h2 := (lt_cntLe_iff (w := w) hP (h + 1) _ hj).mpr (by omega)
     omega
 
+/-- below width 64 `combine` subtracts, shifts and adds (at width ≥ 64 the code skips the subtraction and the high
+part is 0) -/
+theorem Sparse.combine_of_lt {m : Mode} {s : Sparse} {p : Pos} (h : s.width < 64) :
+    s.combine m p = (do
+      let d ← subM m p.high p.low
+      let l ← s.low.get p.low
+      let v ← addM m ((d <<< s.width) % U64) l.toNat
+      return (p.low, v)) := by
+  unfold Sparse.combine
+  rw [if_pos h]
+  cases subM m p.high p.low <;> rfl
+
+/-- at width ≥ 64 `combine` does not look at `p.high` -/
+theorem Sparse.combine_of_ge {m : Mode} {s : Sparse} {p : Pos} (h : ¬ s.width < 64) :
+    s.combine m p = (do
+      let l ← s.low.get p.low
+      let v ← addM m 0 l.toNat
+      return (p.low, v)) := by
+  unfold Sparse.combine
+  rw [if_neg h]
+  rfl
+
 namespace Sparse.Encodes
 variable {s : Sparse} {n w : Nat} {P : List Nat}
 
@@ -568,7 +590,8 @@ theorem pos_strict (hs : s.Encodes n w P) (i j : Nat) (hij : i < j) (hj : j < P.
 /-- `combine` at the position of the `i`-th one reassembles `P[i]`, without overflow in either mode -/
 theorem combine_ok (hs : s.Encodes n w P) (m : Mode) (i : Nat) (hi : i < P.length) :
     s.combine m ⟨P[i] >>> w + i, i⟩ = ok (i, P[i]) := by
-  unfold Sparse.combine Sparse.width
+  rw [Sparse.combine_of_lt (by have := hs.width_eq; have := hs.w_lt; unfold Sparse.width; omega)]
+  unfold Sparse.width
   have hsub : subM m (P[i] >>> w + i) i = ok (P[i] >>> w) := by
     rw [subM_ok (Nat.le_add_left _ _), Nat.add_sub_cancel]
   have hsp := split_eq w P[i]
